@@ -611,8 +611,23 @@ Lemma LG_handle_readlink s h : LG s (fst (handle_readlink s h)).
 Proof. unfold handle_readlink. lhandler. Qed.
 Lemma LG_handle_fsx s h f : LG s (fst (handle_fsx s h f)).
 Proof. unfold handle_fsx. lhandler. Qed.
+Lemma LG_mnt_prefix_check fuel : forall s pre, LG s (fst (mnt_prefix_check s pre fuel)).
+Proof.
+  induction fuel as [|k IH]; intros s pre; cbn [mnt_prefix_check]; [destruct pre; apply LG_refl|].
+  destruct pre as [|c r]; [apply LG_refl|].
+  destruct (do_lstat s (c :: r)) as [s1 res] eqn:E.
+  assert (H1 : LG s s1) by (pose proof (LG_do_lstat s (c :: r)) as H; rewrite E in H; exact H).
+  destruct res as [fi|e]; [destruct (kind_eqb (fi_kind fi) KLink)|]; cbn [fst]; try exact H1;
+  (eapply LG_trans; [exact H1|apply IH]).
+Qed.
 Lemma LG_handle_mnt s p : LG s (fst (handle_mnt s p)).
-Proof. unfold handle_mnt. lhandler. Qed.
+Proof.
+  unfold handle_mnt. cbv zeta. destruct (negb (is_abs p)); [apply LG_refl|].
+  destruct (mnt_prefix_check s _ _) as [s0 linked] eqn:E.
+  assert (H0 : LG s s0) by (match type of E with mnt_prefix_check ?a ?b ?c = _ => pose proof (LG_mnt_prefix_check c a b) as H; rewrite E in H; exact H end).
+  destruct linked; cbn [fst]; [exact H0|].
+  eapply LG_trans; [exact H0|]. ldes; lcollect2; lchain2.
+Qed.
 Lemma LG_handle_commit s h : LG s (fst (handle_commit s h)).
 Proof. unfold handle_commit. lhandler. Qed.
 Lemma LG_handle_read s h off cnt : LG s (fst (handle_read s h off cnt)).
@@ -650,8 +665,9 @@ Lemma LG_handle_setattr s c h sa g : (c_uid c =? 0) = false -> LG s (fst (handle
 Proof.
   intros Hnr. unfold handle_setattr.
   destruct (ro (conf s)); [apply LG_refl|].
-  match goal with |- context [if ?b then (s, fail_wcc NFSERR_INVAL) else _] => destruct b; [apply LG_refl|] end.
+  destruct (match s_mode sa with Some m => N.testbit m 15 | None => false end); [apply LG_refl|].
   destruct (lookup_node s h) as [[p a0]|]; [|apply LG_refl].
+  destruct (kind_eqb (na_kind a0) KLink); [apply LG_refl|].
   destruct (getattr_h s h p) as [s1 pre] eqn:E1. lcollect2. destruct pre as [prea|e]; [|lchain].
   match goal with |- context [if ?b then (s1, fail_wcc NFSERR_NOT_SYNC) else _] => destruct b; [lchain|] end.
   cbv zeta.
